@@ -127,6 +127,10 @@ def run(ctx):
                 continue
             if c["base"]["changed"].get(p) != d:
                 bad = "%s was altered although it was not the file being written when the fault hit" % p
+        if opname.startswith("repair"):
+            for p, d in pi["changed"].items():
+                if p != torn_path and p not in pi["repaired"]:
+                    bad = "%s was written completely but is not listed in the (partial) result of the failed Repair" % p
         for p in pi["repaired"]:
             if p == torn_path or L.apply_changed(fs0, pi["changed"]).get(p) != L.apply_changed(fs0, c["base"]["changed"]).get(p):
                 bad = "%s is reported as repaired although its write did not complete" % p
